@@ -194,6 +194,33 @@ impl C17Worker {
 }
 
 pub fn exec_trace(w: &mut C17Worker, trace: &Value, res: &mut ExecResult) {
+    if trace["kind"].as_str() == Some("module-list") {
+        // the embedded importer and the file-system importer must offer the same modules
+        use numbat::module_importer::ModuleImporter;
+        let mut a: Vec<String> = numbat::module_importer::BuiltinModuleImporter::default()
+            .list_modules()
+            .into_iter()
+            .map(|m| m.to_string())
+            .collect();
+        a.sort();
+        let b = w.modules.clone();
+        res.bump("checks.module_list");
+        if a != b {
+            let sa: BTreeSet<&String> = a.iter().collect();
+            let sb: BTreeSet<&String> = b.iter().collect();
+            res.fail(
+                "module-list",
+                format!(
+                    "embedded modules and module files differ: only embedded {:?}, only on disk {:?}",
+                    sa.difference(&sb).take(5).collect::<Vec<_>>(),
+                    sb.difference(&sa).take(5).collect::<Vec<_>>()
+                ),
+            );
+        }
+        res.fingerprint = crate::rng::fnv_str(&a.join(","));
+        res.nontrivial = true;
+        return;
+    }
     let empty = vec![];
     let inputs: Vec<String> = trace["deliveries"]
         .as_array()
@@ -238,7 +265,46 @@ pub fn exec_trace(w: &mut C17Worker, trace: &Value, res: &mut ExecResult) {
         w.importer.add_module(k, v);
     }
     w.importer.set_tag("run");
-    let mut s = Sess::new(w.importer.clone());
+    // which importer serves the delivery run: the instrumented one, or numbat's own importers
+    // (embedded modules, file system, or a user directory holding SOME modules chained before
+    // the embedded ones — what the CLI builds); the reference is always the canonical delivery
+    // through the instrumented importer
+    let imp_kind = trace["importer"].as_str().unwrap_or("sim");
+    let use_log = imp_kind == "sim";
+    let mut s = match imp_kind {
+        "builtin" => Sess::with_importer(numbat::module_importer::BuiltinModuleImporter::default()),
+        "fs" => {
+            let mut fs = numbat::module_importer::FileSystemImporter::default();
+            fs.add_path(crate::sess::modules_dir());
+            Sess::with_importer(fs)
+        }
+        "chained" => {
+            let dir = overlay_dir();
+            let _ = std::fs::remove_dir_all(&dir);
+            let empty = vec![];
+            for m in trace["overlay"].as_array().unwrap_or(&empty).iter().filter_map(|x| x.as_str()) {
+                let rel = format!("{}.nbt", m.replace("::", "/"));
+                let src = format!("{}/{rel}", crate::sess::modules_dir());
+                let dst = dir.join(&rel);
+                if let Some(p) = dst.parent() {
+                    let _ = std::fs::create_dir_all(p);
+                }
+                if std::fs::copy(&src, &dst).is_err() {
+                    res.harness_error = Some(format!("cannot copy {src} into the overlay directory"));
+                    return;
+                }
+            }
+            let _ = std::fs::create_dir_all(&dir);
+            let mut fs = numbat::module_importer::FileSystemImporter::default();
+            fs.add_path(&dir);
+            Sess::with_importer(numbat::module_importer::ChainedImporter::new(
+                Box::new(fs),
+                Box::new(numbat::module_importer::BuiltinModuleImporter::default()),
+            ))
+        }
+        _ => Sess::new(w.importer.clone()),
+    };
+    res.bump(&format!("importer.{imp_kind}"));
     let mut fp = Fnv::default();
     let mut delivered: BTreeSet<String> = BTreeSet::new();
     let mut dup_seen = false;
@@ -269,7 +335,7 @@ pub fn exec_trace(w: &mut C17Worker, trace: &Value, res: &mut ExecResult) {
             dup_seen = true;
             res.bump("fault.dup-import");
             let calls = w.importer.log_since(log0);
-            if !calls.is_empty() {
+            if use_log && !calls.is_empty() {
                 // not a violation by itself (the property is about the effect of a repeated
                 // import, not about file-system traffic); counted for the evidence
                 res.bump("probe.duplicate_import_asked_importer");
@@ -317,7 +383,7 @@ pub fn exec_trace(w: &mut C17Worker, trace: &Value, res: &mut ExecResult) {
         .filter(|e| e.found && !e.module.starts_with("sim::"))
         .map(|e| e.module)
         .collect();
-    if fetched != canon.1 {
+    if use_log && fetched != canon.1 {
         res.fail(
             "import-closure",
             format!(
@@ -341,6 +407,18 @@ pub fn exec_trace(w: &mut C17Worker, trace: &Value, res: &mut ExecResult) {
     res.nontrivial = set.len() >= 2 && (!canonical_order || dup_seen);
     res.add("vm_instructions", crate::sess::VM_STEPS_TOTAL.with(|c| c.replace(0)));
     res.add("inputs_including_probes", crate::sess::INPUTS_TOTAL.with(|c| c.replace(0)));
+}
+
+fn overlay_dir() -> std::path::PathBuf {
+    std::path::PathBuf::from(
+        format!(
+            "{}/work/c17/{}-{:?}/overlay",
+            crate::verif_root(),
+            std::process::id(),
+            std::thread::current().id()
+        )
+        .replace(['(', ')'], ""),
+    )
 }
 
 pub struct C17;
@@ -377,7 +455,7 @@ impl Prop for C17 {
     fn fixed_traces(&self, tier: Tier) -> Vec<Value> {
         let importer = SimImporter::new();
         let mods = list_real_modules(&importer);
-        let mut v = vec![];
+        let mut v = vec![json!({"format": 1, "property": "C17", "kind": "module-list", "deliveries": [], "synthetic": {}})];
         // every module alone (and twice)
         for m in &mods {
             v.push(json!({"format": 1, "property": "C17", "kind": "single", "deliveries": [format!("use {m}"), format!("use {m}")], "synthetic": {}}));
@@ -461,7 +539,18 @@ impl Prop for C17 {
                 i += take;
             }
         }
-        let trace = json!({"format": 1, "property": "C17", "kind": kind, "deliveries": deliveries, "synthetic": synthetic});
+        let mut trace = json!({"format": 1, "property": "C17", "kind": kind, "deliveries": deliveries, "synthetic": synthetic});
+        // 1 run in 5 without wrapper modules goes through numbat's own importers
+        if synthetic.is_empty() && rng.chance(0.2) {
+            let k = *rng.pick(&["builtin", "fs", "chained", "chained"]);
+            trace["importer"] = json!(k);
+            if k == "chained" {
+                // the user directory holds a seeded subset of the real modules (identical copies)
+                let n = rng.range(0, 6) as usize;
+                let overlay: Vec<String> = (0..n).map(|_| rng.pick(&mods).clone()).collect();
+                trace["overlay"] = json!(overlay);
+            }
+        }
         let res = self.exec(w, &trace);
         (trace, res)
     }
